@@ -136,9 +136,12 @@ fn ts() -> impl Strategy<Value = Ts> {
 }
 
 fn range() -> impl Strategy<Value = Ext> {
-    (ts(), ts(), prop_oneof![Just(0u64), Just(1), Just(1_000_000_000), 0u64..10_000_000_000_000]).prop_map(|(a, b, d)| {
+    (ts(), ts(), prop_oneof![Just(0u64), Just(1), Just(1_000_000_000), 0u64..10_000_000_000_000, Just(u64::MAX)]).prop_map(|(a, b, d)| {
         // start ≤ end by construction: either two ordered instants or start + a duration
-        if d % 2 == 0 {
+        if d == u64::MAX {
+            // the empty range: a span that starts and ends within one clock reading is still a range (Extent::range docs)
+            Ext::Range(a, a)
+        } else if d % 2 == 0 {
             if a.nanos() <= b.nanos() { Ext::Range(a, b) } else { Ext::Range(b, a) }
         } else {
             let end = (a.nanos() + d as u128).min(MAX_SECS as u128 * 1_000_000_000 + 999_999_999);
@@ -538,6 +541,7 @@ fn main() {
             ("128-bit-or-non-finite", 250),
             ("enum-variant", 230),
             ("error-chain", 120),
+            ("extent-empty-range", 100),
             ("error-chain:three-links-holding-their-source-inline", 60),
             ("capture-serde", 400),
             ("capture-sval", 400),
